@@ -85,6 +85,12 @@ def faults(d, rng):
             r = rn[pos]
             if U:
                 yield f"sensor {sname}.{r} depends on control {U[0].name}", ekf_ep, lambda dd, sname=sname, r=r: dd.sensor_models[sname].__setitem__(r, dd.sensor_models[sname][r] + 3 * U[0])
+            # two foreign symbols in ONE reading (the refusal's own message has to name both)
+            yield f"sensor {sname}.{r} depends on two undeclared symbols", ekf_ep, lambda dd, sname=sname, r=r: dd.sensor_models[sname].__setitem__(r, dd.sensor_models[sname][r] + sympy.Symbol("ghost_sym") * sympy.Symbol("ghost_sym2"))
+            if U:
+                yield f"sensor {sname}.{r} depends on control {U[0].name} and on an undeclared symbol", ekf_ep, lambda dd, sname=sname, r=r: dd.sensor_models[sname].__setitem__(r, dd.sensor_models[sname][r] + 3 * U[0] + sympy.Symbol("ghost_sym"))
+            if len(U) >= 2:
+                yield f"sensor {sname}.{r} depends on the controls {U[0].name} and {U[1].name}", ekf_ep, lambda dd, sname=sname, r=r: dd.sensor_models[sname].__setitem__(r, dd.sensor_models[sname][r] + 3 * U[0] - U[1])
             yield f"sensor {sname}.{r} depends on an undeclared symbol", ekf_ep, lambda dd, sname=sname, r=r: dd.sensor_models[sname].__setitem__(r, dd.sensor_models[sname][r] + sympy.Symbol("ghost_sym"))
             # an undeclared symbol that merely SHARES ITS NAME with a declared state: Symbol('x', positive=True) is not Symbol('x')
             yield f"sensor {sname}.{r} depends on an undeclared symbol spelled like the state {S[0].name}", ekf_ep, lambda dd, sname=sname, r=r: dd.sensor_models[sname].__setitem__(r, dd.sensor_models[sname][r] + 2 * sympy.Symbol(S[0].name, **({"positive": True} if S[0].is_positive is None else {})) if S[0].is_positive is None else dd.sensor_models[sname][r] + 2 * sympy.Symbol(S[0].name))
